@@ -196,7 +196,7 @@ func (c *SCall) step(s *Model) (bool, *Model) {
 		return true, n
 	case "next", "sync":
 		return c.rerr == nil && c.rnext == s.Next, s
-	case "gc", "stat", "reopen":
+	case "gc", "stat", "reopen", "reopen-exact":
 		return c.rerr == nil, s
 	case "consume":
 		if c.Off > s.Next {
@@ -371,6 +371,10 @@ type WinCase struct {
 	Point    string   `json:"point"`
 	Hit      int      `json:"hit"` // arm the point at its (Hit+1)-th occurrence in A
 	Bs       []*SCall `json:"bs"`
+	// Suffix: sequential calls after the window (held to the sequential contract like the prefix), run before the full
+	// observation when SuffixFirst (an observation reloads everything and would hide state the window left behind)
+	Suffix      []*SCall `json:"suffix,omitempty"`
+	SuffixFirst bool     `json:"suffix_first,omitempty"`
 }
 
 var winKeys = [][]byte{[]byte("a"), []byte("b"), collisionPairs[0][0], collisionPairs[0][1]}
@@ -378,7 +382,7 @@ var winKeys = [][]byte{[]byte("a"), []byte("b"), collisionPairs[0][0], collision
 var pointsByKind = map[string][]string{
 	"publish": {"publish.rollover.before-swap", "publish.rollover.after-swap", "publish.batch.after-record", "publish.batch.after-record", "publish.batch.before-visible"},
 	"delete":  {"delete.reader-found", "delete.reader-found", "delete.target-chosen", "delete.after-rewrite", "delete.after-rewrite", "delete.before-swap"},
-	"read":    {"reader.consume.after-index", "reader.consume.after-messages", "reader.index.before-load", "reader.index.before-load"},
+	"read":    {"reader.consume.after-index", "reader.consume.after-messages", "reader.index.before-load", "reader.index.before-load", "reader.messages.before-open"},
 	"gc":      {"reader.gc.after-index-drop"},
 }
 
@@ -482,6 +486,22 @@ func (w *winEnv) seq(c *SCall) {
 			es, _ := filepath.Glob(filepath.Join(w.dir, "*.index"))
 			for _, f := range es {
 				_ = os.Remove(f)
+			}
+			var l klevdb.Log
+			l, c.rerr = klevdb.Open(w.dir, w.opts)
+			if c.rerr == nil {
+				w.l = l
+			}
+		}
+	} else if c.Kind == "reopen-exact" {
+		// close and reopen with Rollover set to the exact size of the head's log file: the boundary every
+		// "is this segment full" test has to agree on
+		c.rerr = w.l.Close()
+		if c.rerr == nil {
+			if names, _ := listLogs(w.dir); len(names) > 0 {
+				if fi, err := os.Stat(filepath.Join(w.dir, names[len(names)-1])); err == nil && fi.Size() > 8 {
+					w.opts.Rollover = fi.Size()
+				}
 			}
 			var l klevdb.Log
 			l, c.rerr = klevdb.Open(w.dir, w.opts)
@@ -640,13 +660,32 @@ func (w *winEnv) window(st *Stats) bool {
 	// afterwards (quiescent) the log must be exactly the state every linearization ends in: nothing
 	// changed, disappeared or became unreachable except what a Delete reported
 	verifhook.SetPause(nil)
-	ve := &Env{P: &Profile{Name: "C08", Own: own("after")}, Cfg: HConfig{KeyIndex: true, TimeIndex: true}, Dir: w.dir, M: final, St: st, flags: map[string]bool{}}
-	if v := protect(func() {
-		ve.observeWith(w.l, w.dir, obsTags{next: "after", scan: "after", consume: "after", get: "after", key: "after", time: "after", stat: "after"}, "log after the window")
-	}); v != nil {
-		panic(&Violation{Oracle: "after-window", Msg: fmt.Sprintf("after the calls completed the log does not match their linearization: %s\n  A held at %s (occurrence %d), state before: next=%d live=%v; calls [invoke,return]:%s", v.Msg, c.Point, c.Hit+1, w.m.Next, w.m.Offsets(), ss)})
-	}
+	before := fmt.Sprintf("A held at %s (occurrence %d), state before: next=%d live=%v; calls [invoke,return]:%s", c.Point, c.Hit+1, w.m.Next, w.m.Offsets(), ss)
 	w.m = final
+	observe := func(when string) {
+		ve := &Env{P: &Profile{Name: "C08", Own: own("after")}, Cfg: HConfig{KeyIndex: true, TimeIndex: true}, Dir: w.dir, M: w.m, St: st, flags: map[string]bool{}}
+		if v := protect(func() {
+			ve.observeWith(w.l, w.dir, obsTags{next: "after", scan: "after", consume: "after", get: "after", key: "after", time: "after", stat: "after"}, "log "+when)
+		}); v != nil {
+			panic(&Violation{Oracle: "after-window", Msg: fmt.Sprintf("%s the log does not match the linearization of the calls: %s\n  %s\n  then sequentially: %v", when, v.Msg, before, c.Suffix)})
+		}
+	}
+	if !c.SuffixFirst {
+		observe("after the window")
+	}
+	if len(c.Suffix) > 0 {
+		if v := protect(func() {
+			for _, p := range c.Suffix {
+				w.seq(p)
+			}
+		}); v != nil {
+			panic(&Violation{Oracle: "after-window", Msg: fmt.Sprintf("a sequential call after the window misbehaves: %s\n  %s\n  then sequentially: %v", v.Msg, before, c.Suffix)})
+		}
+		st.Inc("windows_followed_by_sequential_calls")
+		observe("after the window and the sequential calls that followed")
+	} else if c.SuffixFirst {
+		observe("after the window")
+	}
 	return wasHit
 }
 
@@ -704,6 +743,13 @@ func TestC08Windows(t *testing.T) {
 				w.seq(p)
 			}
 			g.m = w.m
+			exact := uni(rt, 6, "exact_rollover") == 5
+			if exact {
+				p := &SCall{Kind: "reopen-exact"}
+				c.Prefix = append(c.Prefix, p)
+				w.seq(p)
+				st.Inc("cases_with_rollover_equal_to_head_size")
+			}
 			// A and its pause point, chosen so that the point is likely to be reached in the current state
 			c.Hit = 0
 			oldLive := func() int64 { // an offset in the oldest part of the log (a reader segment when there are several)
@@ -749,7 +795,7 @@ func TestC08Windows(t *testing.T) {
 				}
 			case "read":
 				c.Point = pick(rt, pointsByKind["read"], "point")
-				if c.Point == "reader.index.before-load" {
+				if c.Point == "reader.index.before-load" || c.Point == "reader.messages.before-open" {
 					// unload the reader segments first
 					p := &SCall{Kind: "gc"}
 					c.Prefix = append(c.Prefix, p)
@@ -833,6 +879,33 @@ func TestC08Windows(t *testing.T) {
 					}
 				}
 				st.Inc("focused_cases")
+			}
+			if exact && c.A.Kind == "delete" && len(w.m.Live) > 0 && rapid.Bool().Draw(rt, "exact_template") {
+				// the head is exactly as big as Rollover: a delete in it, one publish that still fits by the writer's
+				// own test, one that rolls
+				c.A.Set = []int64{w.m.Live[len(w.m.Live)-1].Off}
+				if len(w.m.Live) > 1 && rapid.Bool().Draw(rt, "second_newest") {
+					c.A.Set = []int64{w.m.Live[len(w.m.Live)-2].Off}
+				}
+				c.Bs = []*SCall{{Kind: "publish", Msgs: g.msgs(1)}, {Kind: "publish", Msgs: g.msgs(1)}}
+			}
+			// what follows the window: nothing, or one or two sequential calls that depend on what the window left behind
+			// (a delete in an old segment needs it closed and reloads it; GC needs its use counts back at zero)
+			if uni(rt, 3, "suffix") > 0 {
+				ns := 1 + uni(rt, 2, "n_suffix")
+				for i := 0; i < ns; i++ {
+					var p *SCall
+					switch k := pick(rt, []string{"delete-old", "delete-old", "gc", "delete", "publish", "consume"}, "suffix_kind"); k {
+					case "delete-old":
+						p = &SCall{Kind: "delete", Set: []int64{oldLive()}}
+					case "gc":
+						p = &SCall{Kind: "gc"}
+					default:
+						p = g.call([]string{k})
+					}
+					c.Suffix = append(c.Suffix, p)
+				}
+				c.SuffixFirst = uni(rt, 3, "suffix_first") > 0
 			}
 			hit := w.window(st)
 			st.Eval(1)
